@@ -66,22 +66,28 @@ def handle (op : String) (req : Json) : R Json := do
     let (l0, l1) := match layers[0]?, layers[1]? with
       | some d0, some d1 => (d0.rows, d1.rows)
       | _, _ => (0, 0)
-    let w := c.warmup.toNat
-    let rr := reconRows l0 mag p c.offs
-    let rc := reconCols l1 mag p c.offs
+    -- the specification is evaluated for the configuration as the implementation reports it
+    -- (public getters: warm-up, offsets, sub-pixels per pixel); `null` = use the model's own values
+    let obs ← fld req "observed"
+    let (wi, soffs, sp) ← (match obs with
+      | .null => (pure (c.warmup, c.offs, p) : R (Int × List Nat × Nat))
+      | o => do pure (← getInt o "w", ← getList asNat o "offs", ← getNat o "p"))
+    let w := wi.toNat
+    let rr := reconRows l0 mag sp soffs
+    let rc := reconCols l1 mag sp soffs
     let n := layers.length
     let idx : List (Nat × Nat × Nat) :=
       (List.range rr).flatMap (fun r => (List.range rc).flatMap (fun cc => (List.range n).map (fun i => (r, cc, i))))
-    let inrange := decide (0 ≤ c.warmup) && idx.all (fun (r, cc, i) => voxelInRange l0 l1 mag p w c.offs layers r cc i)
+    let inrange := decide (0 ≤ wi) && !soffs.isEmpty && idx.all (fun (r, cc, i) => voxelInRange l0 l1 mag sp w soffs layers r cc i)
     let specArr : Arr3 (List Int) :=
-      { rows := rr, cols := rc, depth := n, get := fun r cc i => voxel z l0 l1 mag p w c.offs layers r cc i }
+      { rows := rr, cols := rc, depth := n, get := fun r cc i => voxel z l0 l1 mag sp w soffs layers r cc i }
     let flatModel := (List.range nel).map (fun e =>
       match getFlat c m (layers.map (project e)) with
       | some a => jArr2 jRat a
       | none => jObj [("raises", jStr "ValueError")])
     let flatSpecs := (List.range nel).map (fun e =>
       jArr2 jRat ({ rows := rr, cols := rc,
-                    get := fun r cc => flatSpec l0 l1 mag p w c.offs (layers.map (project e)) r cc } : Arr2 Rat))
+                    get := fun r cc => flatSpec l0 l1 mag sp w soffs (layers.map (project e)) r cc } : Arr2 Rat))
     let layerReads := (List.range n).map (fun i =>
       match getLayer layers i with
       | some a => jArr2 (jList jInt) a
